@@ -22,19 +22,32 @@ def Tab.len (t : Tab) (c : Nat) : Nat := (t.getD c #[]).size
 def ready (t : Tab) (r : SRule) (n : Nat) : Bool :=
   (r.sub.zip r.shifts).all (fun (cs : Nat × Int) => (n : Int) - cs.2 < (t.len cs.1 : Int))
 
-def evalRule (t : Tab) (r : SRule) (n : Nat) : Option Terms :=
-  let prov (c : Nat) : Nat → Terms := fun m => t.get c m
+/-- the children of the rule's constructor with their sub-term providers taken from the valuation `a` -/
+def attach (a : Nat → Nat → Terms) (r : SRule) : List Child :=
+  (r.children.zip r.sub).map (fun (cc : Child × Nat) => { cc.1 with terms := a cc.2 })
+
+/-- class whose terms child `j` of a reverse rule's constructor reads: `sub = [original parent, original children
+without idx…]`, the flipped child `idx` reads the rule's own class -/
+def revClass (r : SRule) (j : Nat) : Nat :=
+  if j == r.idx then r.cls else (r.sub.drop 1).getD (if j < r.idx then j else j - 1) 0
+
+/-- the children of a reverse rule's constructor (those of the *original* rule) with their providers -/
+def attachRev (a : Nat → Nat → Terms) (r : SRule) : List Child :=
+  r.children.zipIdx.map (fun (cj : Child × Nat) => { cj.1 with terms := a (revClass r cj.2) })
+
+/-- what rule `r` computes for size `n` from the sequences `a` (class ↦ size ↦ terms); `none` = an assertion of the
+Python code fires. This is the functional `F r a n` of `sol_unique`. -/
+def ruleSemO (r : SRule) (a : Nat → Nat → Terms) (n : Nat) : Option Terms :=
   match r.kind with
   | .ver => some (((r.table.find? (·.1 == n)).map (·.2)).getD [])
-  | .union => unionTerms r.parentNames ((r.children.zip r.sub).map (fun (cc : Child × Nat) => { cc.1 with terms := prov cc.2 })) n
-  | .product => some (productTerms r.parentNames ((r.children.zip r.sub).map (fun (cc : Child × Nat) => { cc.1 with terms := prov cc.2 })) n)
+  | .union => unionTerms r.parentNames (attach a r) n
+  | .product => some (productTerms r.parentNames (attach a r) n)
   | .complement | .quotient =>
-    -- sub = [original parent, original children without idx…]; child idx reads the rule's own class
-    let others := r.sub.drop 1
-    let provs : List (Nat → Terms) := (others.take r.idx).map prov ++ [prov r.cls] ++ (others.drop r.idx).map prov
-    let cs := (r.children.zip provs).map (fun (cp : Child × (Nat → Terms)) => { cp.1 with terms := cp.2 })
-    if r.kind == .complement then complementTerms r.parentNames cs r.idx (prov (r.sub.headD 0)) n
-    else quotientTerms r.parentNames cs r.idx (prov (r.sub.headD 0)) n
+    let cs := attachRev a r
+    if r.kind == .complement then complementTerms r.parentNames cs r.idx (a (r.sub.headD 0)) n
+    else quotientTerms r.parentNames cs r.idx (a (r.sub.headD 0)) n
+
+def evalRule (t : Tab) (r : SRule) (n : Nat) : Option Terms := ruleSemO r (fun c m => t.get c m) n
 
 /-- fill the table until every class has terms 0..N or nothing more is computable -/
 def evalSpec (rules : List SRule) (nClasses N : Nat) : Nat → Tab → Tab × Bool
